@@ -61,8 +61,14 @@ public:
     }
 
     void reportErr(const ErrorMessage &msg) override {
-        if (!mThreadExecutor.hasToLog(msg))
+        if (!mThreadExecutor.hasToLog(msg)) {
+            ErrorMessage temp(msg);
+            if (mThreadExecutor.isSuppressedCriticalError(temp)) {
+                std::lock_guard<std::mutex> lg(mReportSync);
+                mErrorLogger.reportErr(temp);
+            }
             return;
+        }
 
         std::lock_guard<std::mutex> lg(mReportSync);
         mErrorLogger.reportErr(msg);
